@@ -443,8 +443,21 @@ impl MemoryInstance {
             "We only allow shrinking of the heap during rollback"
         );
 
-        let stack_changes =
-            get_changes(&self.stack[..sp], &desired_memory_state.stack[..sp], 0);
+        // The heap may have overtaken a part of the stack that the desired state still
+        // has (the stack is truncated when the heap grows into it). Compare the common
+        // part and restore the missing tail in full.
+        let common = sp.min(self.stack.len());
+        let mut stack_changes = get_changes(
+            &self.stack[..common],
+            &desired_memory_state.stack[..common],
+            0,
+        );
+        if common < sp {
+            stack_changes.push(MemorySliceChange {
+                global_start: common,
+                data: desired_memory_state.stack[common..sp].to_vec(),
+            });
+        }
 
         let heap_start = hp
             .checked_sub(self.heap_offset())
